@@ -199,7 +199,8 @@ def _export_senses(
             'meta': _export_metadata(rowid, 'senses'),
         }
         if version >= (1, 1) and id in sbmap:
-            sense['subcat'] = sorted(sbid for sbid, _ in sbmap[id])
+            # frames from WN-LMF 1.0 sources have no id to refer to
+            sense['subcat'] = sorted(sbid for sbid, _ in sbmap[id] if sbid)
         senses.append(sense)
     return senses
 
